@@ -4,6 +4,7 @@
 mod basic;
 mod cfgjudge;
 mod ctjudge;
+mod dwarfjudge;
 mod exec;
 mod gcjudge;
 mod mapjudge;
@@ -119,6 +120,7 @@ fn main() {
                 "C01" => exec::c01(c, &mut rep, seed),
                 "C14" => cfgjudge::run(c, &mut rep),
                 "C11" => ctjudge::run(c, &mut rep),
+                "C10" => dwarfjudge::run(c, &mut rep),
                 "C19" => mapjudge::c19(c, &mut rep),
                 "C13" => mapjudge::c13(c, &mut rep),
                 "C06" | "C07" => gcjudge::run(c, &mut rep, &prop, seed),
